@@ -68,6 +68,9 @@ typedef struct {
   char *display_name;
   int line_delta;
 
+  // Number of files between this one and the primary source file
+  int include_depth;
+
   // Offsets in `contents` at which a backslash-newline was removed,
   // in ascending order and terminated by -1 (NULL if there is none).
   int *splices;
